@@ -18,6 +18,7 @@ import (
 
 // Env is the run configuration handed over by the driver.
 type Env struct {
+	Out    string // where evidence parts and replays are written (= Dir unless VERIF_OUT is set)
 	Dir    string // /verif
 	Tier   string // quick | thorough
 	Seed   int64
@@ -31,6 +32,10 @@ func GetEnv() Env {
 	e := Env{Dir: os.Getenv("VERIF_DIR"), Tier: os.Getenv("VERIF_TIER"), Phase: os.Getenv("VERIF_PHASE"), Replay: os.Getenv("VERIF_REPLAY")}
 	if e.Dir == "" {
 		e.Dir = "/verif"
+	}
+	e.Out = os.Getenv("VERIF_OUT")
+	if e.Out == "" {
+		e.Out = e.Dir
 	}
 	if e.Tier != "thorough" {
 		e.Tier = "quick"
@@ -215,7 +220,7 @@ type Part struct {
 	HashFile     string           `json:"hash_file,omitempty"`
 }
 
-func (r *Recorder) partsDir() string { return filepath.Join(r.Env.Dir, "evidence", ".parts", r.Prop) }
+func (r *Recorder) partsDir() string { return filepath.Join(r.Env.Out, "evidence", ".parts", r.Prop) }
 
 // WritePart writes the part file (and the hash set) for the driver to merge.
 func (r *Recorder) WritePart() error {
@@ -273,7 +278,7 @@ func (r *Recorder) SaveReplay(kind string, c any, err error) string {
 	}
 	rp := Replay{Prop: r.Prop, Kind: kind, Case: b, Error: err.Error(), Seed: r.Env.Seed, Tier: r.Env.Tier}
 	out, _ := json.MarshalIndent(rp, "", " ")
-	dir := filepath.Join(r.Env.Dir, "replays")
+	dir := filepath.Join(r.Env.Out, "replays")
 	os.MkdirAll(dir, 0o755)
 	path := filepath.Join(dir, fmt.Sprintf("%s-%s-%02d.json", r.Prop, r.Env.Phase, r.Env.Shard))
 	os.WriteFile(path, out, 0o644)
